@@ -8,6 +8,7 @@ fn bytes(v: &Value) -> Vec<u8> { v.as_array().map(|a| a.iter().map(|x| x.as_u64(
 
 // inputs of recorded (open) known findings are skipped by the enumerators so that a DIFFERENT
 // failure of the same check is still found; they are re-confirmed separately with `input`
+fn thorough() -> bool { std::env::var("VERIF_TIER").map(|t| t == "thorough").unwrap_or(false) }
 fn skip_list() -> Vec<Value> {
     std::env::var("VERIF_SKIP").ok().and_then(|s| serde_json::from_str::<Vec<Value>>(&s).ok()).unwrap_or_default()
 }
@@ -127,7 +128,8 @@ fn stepper_programs() -> Vec<Vec<u8>> {
     let mut v: Vec<Vec<u8>> = vec![];
     // path atoms: one byte, two bytes (incl. non-minimal and sign-extended), three bytes
     for b in 0u16..=0xff { v.push(if b == 0 { vec![0x00] } else if b < 0x80 { vec![b as u8] } else { vec![0x81, b as u8] }); }
-    for hi in [0x00u8, 0x01, 0x7f, 0x80, 0xff] { for lo in [0x00u8, 0x01, 0x02, 0x7f, 0x80, 0xfe, 0xff] { v.push(vec![0x82, hi, lo]); } }
+    if thorough() { for hi in 0u16..=0xff { for lo in (0u16..=0xff).step_by(3) { v.push(vec![0x82, hi as u8, lo as u8]); } } }
+    else { for hi in [0x00u8, 0x01, 0x7f, 0x80, 0xff] { for lo in [0x00u8, 0x01, 0x02, 0x7f, 0x80, 0xfe, 0xff] { v.push(vec![0x82, hi, lo]); } } }
     v.push(vec![0x83, 0x00, 0x00, 0x00]); v.push(vec![0x83, 0x00, 0xff, 0xff]); v.push(vec![0x83, 0xff, 0xff, 0xff]);
     // a few operator programs: (q . 1), (f 1), (r 1), (c 2 3), (i 2 5 7), (a 2 3), (+ 5 11)
     for hex in ["ff0101", "ff05ff0180", "ff06ff0180", "ff04ff02ff0380", "ff03ff02ff05ff0780", "ff02ff02ff0380", "ff10ff05ff0b80", "ff8200ffff0180", "ff01", "ff80ff0180"] {
@@ -260,7 +262,8 @@ fn sha256(v: &[u8]) -> Vec<u8> {
 fn convert_inputs() -> Vec<Vec<u8>> {
     let mut atoms: Vec<Vec<u8>> = vec![vec![]];
     for b in 0u16..=0xff { atoms.push(vec![b as u8]); }
-    for hi in [0x00u8, 0x01, 0x7f, 0x80, 0x81, 0xfe, 0xff] { for lo in [0x00u8, 0x01, 0x7f, 0x80, 0x81, 0xff] { atoms.push(vec![hi, lo]); } }
+    if thorough() { for hi in 0u16..=0xff { for lo in 0u16..=0xff { atoms.push(vec![hi as u8, lo as u8]); } } }
+    else { for hi in [0x00u8, 0x01, 0x7f, 0x80, 0x81, 0xfe, 0xff] { for lo in [0x00u8, 0x01, 0x7f, 0x80, 0x81, 0xff] { atoms.push(vec![hi, lo]); } } }
     for x in [[0x00u8, 0x00, 0x01], [0x00, 0x80, 0x00], [0xff, 0x80, 0x00], [0xff, 0xff, 0x80], [0xff, 0x7f, 0xff], [0x80, 0x00, 0x00], [0x68, 0x65, 0x6c]] { atoms.push(x.to_vec()); }
     let mut out = vec![];
     for at in &atoms {
@@ -345,7 +348,8 @@ fn chk_disasm(clvm_bytes: &[u8]) -> Option<Value> {
 fn disasm_inputs() -> Vec<Vec<u8>> {
     let mut atoms: Vec<Vec<u8>> = vec![vec![]];
     for b in 0u16..=0xff { atoms.push(vec![b as u8]); }
-    for hi in 0u16..=0xff { for lo in [0x00u8, 0x01, 0x22, 0x27, 0x5c, 0x61, 0x7f, 0x80, 0xff] { atoms.push(vec![hi as u8, lo]); } }
+    if thorough() { for hi in 0u16..=0xff { for lo in 0u16..=0xff { atoms.push(vec![hi as u8, lo as u8]); } } }
+    else { for hi in 0u16..=0xff { for lo in [0x00u8, 0x01, 0x22, 0x27, 0x5c, 0x61, 0x7f, 0x80, 0xff] { atoms.push(vec![hi as u8, lo]); } } }
     for c in [b'"', b'\'', b'\\', b' ', b'#', b'(', b')', b'a', 0x00u8, 0x7f, 0x80] {
         atoms.push(vec![b'a', c, b'b']); atoms.push(vec![c, b'a', b'b']); atoms.push(vec![b'a', b'b', c]); atoms.push(vec![c, c, c]);
     }
@@ -774,7 +778,7 @@ pub fn search(name: &str, seed: u64) -> Value {
             let alpha: &[u8] = b"().\"'\\#;0xa-\n ";
             let n = alpha.len();
             let mut count = 0u64;
-            for len in 0..=4usize {
+            for len in 0..=(if thorough() { 5usize } else { 4usize }) {
                 let total = n.pow(len as u32);
                 for k in 0..total {
                     let mut t = Vec::with_capacity(len);
@@ -787,7 +791,7 @@ pub fn search(name: &str, seed: u64) -> Value {
             for a in 0u16..=255 { if let Some(v) = chk_no_panic_bytes(&[a as u8]) { return v; } for b in 0u16..=255 { if let Some(v) = chk_no_panic_bytes(&[a as u8, b as u8]) { return v; } } }
             let mut x = seed.wrapping_mul(6364136223846793005).wrapping_add(1442695040888963407);
             for _ in 0..20000 { x = x.wrapping_mul(6364136223846793005).wrapping_add(1442695040888963407); let d = [(x >> 8) as u8, (x >> 24) as u8, (x >> 40) as u8, (x >> 56) as u8]; if let Some(v) = chk_no_panic_bytes(&d[..3 + (x as usize & 1)]) { return v; } }
-            nf(&format!("no panic: parse_sexp and assemble on all {} texts of <= 4 symbols over a 14-symbol alphabet (parens dot quotes backslash hash semicolon 0 x a minus newline space); sexp_from_stream on all 1- and 2-byte strings and 20000 seeded 3-4 byte strings", count))
+            nf(&format!("no panic: parse_sexp and assemble on all {} texts of <= 4 (thorough: 5) symbols over a 14-symbol alphabet (parens dot quotes backslash hash semicolon 0 x a minus newline space); sexp_from_stream on all 1- and 2-byte strings and 20000 seeded 3-4 byte strings", count))
         }
         "modern_print" | "printable" | "escape_quote" | "make_atom" => {
             for d in disasm_inputs() { if let Some(v) = chk_modern_print(&d) { return v; } }
